@@ -9,6 +9,7 @@ import FxpVerif.Props.C14
 import FxpVerif.Props.C20
 import FxpVerif.Props.C03
 import FxpVerif.Model.Resize
+import FxpVerif.Model.Infer
 /-!
 # Source tie: the definitions generated from `fxpmath/functions.py` are the rules the theorems speak about
 
@@ -322,6 +323,53 @@ theorem resize_sizes_1111 (old : Meta) (s : Bool) (w f i : Int) :
     resizeMeta old { signed := some s, nword := some w, nfrac := some f, nint := some i } =
       some (metaOf (Gen.resizeSizes_1111 old.signed old.nword old.nint old.nfrac s w f i)) := by
   unfold Gen.resizeSizes_1111; resize_tac
+
+
+/-! ## The constructor's size reconciliation (`_init_size`) when word and fraction are both determined by the arguments -/
+
+/-- the format built from `(signed, n_word, n_frac)`; `none` when the word is not positive (the constructor raises). -/
+def fmtOfSizes (t : Bool × Int × Int) : Option Fmt :=
+  if t.2.1 < 0 ∨ (t.1 = true ∧ t.2.1 = 0) then none else some ⟨t.1, t.2.1.toNat, t.2.2⟩
+
+macro "init_tac" : tactic => `(tactic|
+  (simp only [inferFmt, fmtOfSizes, Option.getD] <;>
+   first
+   | rfl
+   | (cases ‹Bool› <;> simp <;> done)
+   | (simp; done)
+   | (cases ‹Bool› <;> simp <;> omega)))
+
+theorem init_sizes_0110 (s : Bool) (w f i : Int) (vals : List Rat) :
+    inferFmt (none) (some w) (some f) (none) vals = fmtOfSizes (Gen.initSizes_0110 s w f i) := by
+  unfold Gen.initSizes_0110; init_tac
+
+theorem init_sizes_0101 (s : Bool) (w f i : Int) (vals : List Rat) :
+    inferFmt (none) (some w) (none) (some i) vals = fmtOfSizes (Gen.initSizes_0101 s w f i) := by
+  unfold Gen.initSizes_0101; init_tac
+
+theorem init_sizes_0011 (s : Bool) (w f i : Int) (vals : List Rat) :
+    inferFmt (none) (none) (some f) (some i) vals = fmtOfSizes (Gen.initSizes_0011 s w f i) := by
+  unfold Gen.initSizes_0011; init_tac
+
+theorem init_sizes_0111 (s : Bool) (w f i : Int) (vals : List Rat) :
+    inferFmt (none) (some w) (some f) (some i) vals = fmtOfSizes (Gen.initSizes_0111 s w f i) := by
+  unfold Gen.initSizes_0111; init_tac
+
+theorem init_sizes_1110 (s : Bool) (w f i : Int) (vals : List Rat) :
+    inferFmt (some s) (some w) (some f) (none) vals = fmtOfSizes (Gen.initSizes_1110 s w f i) := by
+  unfold Gen.initSizes_1110; init_tac
+
+theorem init_sizes_1101 (s : Bool) (w f i : Int) (vals : List Rat) :
+    inferFmt (some s) (some w) (none) (some i) vals = fmtOfSizes (Gen.initSizes_1101 s w f i) := by
+  unfold Gen.initSizes_1101; init_tac
+
+theorem init_sizes_1011 (s : Bool) (w f i : Int) (vals : List Rat) :
+    inferFmt (some s) (none) (some f) (some i) vals = fmtOfSizes (Gen.initSizes_1011 s w f i) := by
+  unfold Gen.initSizes_1011; init_tac
+
+theorem init_sizes_1111 (s : Bool) (w f i : Int) (vals : List Rat) :
+    inferFmt (some s) (some w) (some f) (some i) vals = fmtOfSizes (Gen.initSizes_1111 s w f i) := by
+  unfold Gen.initSizes_1111; init_tac
 
 
 /-! ## The property theorems, restated about the generated rules
